@@ -36,6 +36,8 @@ MAP = [
  ("extract does not write through symbolic links", [("C12", "a symbolic link followed by a file of the same path or below it wrote outside the target directory")]),
  ("special files are an error instead of unreachable", [("C12", "file types other than regular/dir/symlink hit unreachable!()")]),
  ("the pgp verifier reads the signed data once", [("C02", "a signature made by a subkey over the EMPTY message whose issuer is named twice verified for any header: the second verification attempt read from the already exhausted reader")]),
+ ("capability names are matched ASCII-case-insensitively", [("C19", "names upper-cased with str::to_uppercase: 'cap_ſetuid=p' (long s) and 'cap_dac_overrıde=ep' (dotless i) were accepted and stored verbatim")]),
+ ("files() also pairs archive names that start with several slashes", [("C07", "a destination starting with two slashes ('//ns2/y') was accepted by the builder but files() / extract() failed on the resulting package (archive name './/ns2/y' never matched the header path)")]),
  ("extract works for packages without files", [("C12", "extract failed for packages without files (directory names tag absent)")]),
 ]
 def main():
